@@ -70,7 +70,7 @@ func c18ScanOf(p any) kvql.Plan {
 // access path (and what is read) is decided by the clause, whatever sits on top of the scan
 var c18Heads = []string{"select * where %s", "select key, count(1) as c where %s group by key", "select count(1) where %s",
 	"select key, value where %s order by value desc", "select key, upper(value) as u where %s limit 1, 2",
-	"select value, count(1) as c where %s group by value order by c desc limit 2"}
+	"select value, count(1) as c where %s group by value order by c desc limit 2", "delete where %s"}
 
 func c18Case(e *emitter, pred string, univ [][2]string, batch bool, B int) {
 	c18CaseF(e, pred, univ, batch, B, false)
@@ -154,6 +154,106 @@ func c18CaseH(e *emitter, head int, pred string, univ [][2]string, batch bool, B
 		c18Reads(&frp, fs.log)
 		e.count("faulted_run")
 		e.add(fmt.Sprintf("Case %s %s %s %s %d", term, obs.region, coqStrList(frp.Gets), coqStrList(frp.Nexts), frp.Cursors), frp, true)
+	}
+}
+
+// c18InRegion: the denotation of a scan node as the scan plans execute it (public fields)
+func c18InRegion(scan kvql.Plan, key string) bool {
+	switch x := scan.(type) {
+	case *kvql.EmptyResultPlan:
+		return false
+	case *kvql.MultiGetPlan:
+		for _, k := range x.Keys {
+			if k == key {
+				return true
+			}
+		}
+		return false
+	case *kvql.PrefixScanPlan:
+		return strings.HasPrefix(key, x.Prefix)
+	case *kvql.RangeScanPlan:
+		return (x.Start == nil || key >= string(x.Start)) && (x.End == nil || key <= string(x.End))
+	}
+	return true
+}
+
+// c18BigCase: a statement over a store that is NOT the universe of the case file (regions of several
+// batches, DELETE).  The rule about the one key a scan may read beyond its region is judged here, on the
+// stored keys: every key read lies in the region of the built scan node, except at most one, which is the
+// first stored key behind everything read inside the region and is read last.  The Coq case carries the
+// reads inside the region only (its end-key test speaks about the file's universe) and compares the
+// region with the twin's.
+func c18BigCase(e *emitter, head int, pred string, store [][2]string, batch bool, B int) {
+	query := fmt.Sprintf(c18Heads[head], pred)
+	sel, err := parseWhere(pred)
+	if err != nil {
+		e.count("rejected")
+		return
+	}
+	eo := kvql.ExpressionOptimizer{Root: sel.Where.Expr}
+	term, ok := coqExpr(eo.Optimize())
+	if !ok {
+		e.m.OutOfModel++
+		return
+	}
+	st := newStore(store)
+	kvql.PlanBatchSize = B
+	plan, perr := kvql.NewOptimizer(query).BuildPlan(st)
+	if perr != nil {
+		e.count("rejected")
+		return
+	}
+	scan := c18ScanOf(plan)
+	if scan == nil {
+		e.count("plan_without_scan_node")
+		return
+	}
+	obs := observeRegion(scan)
+	res := drainPlan(plan, batch, runResult{})
+	rp := c18Replay{Query: query, Mode: fmt.Sprintf("batch=%v B=%d, store of %d pairs", batch, B, len(store)), Region: obs.region}
+	if res.Panic != "" || res.Err != nil {
+		e.count("drain_error")
+		return
+	}
+	c18Reads(&rp, st.log)
+	e.count("big_store:scan=" + obs.kind)
+	e.count("big_store:head=" + strings.SplitN(c18Heads[head], " where", 2)[0])
+	var inside []string
+	outside := 0
+	last := ""
+	for _, k := range rp.Nexts {
+		if c18InRegion(scan, k) {
+			inside = append(inside, k)
+		} else {
+			outside++
+			last = k
+		}
+	}
+	bad := ""
+	for _, k := range rp.Gets {
+		if !c18InRegion(scan, k) {
+			bad = "a point read outside the pinned key set: " + k
+		}
+	}
+	if obs.kind != "FULL" {
+		if outside > 1 {
+			bad = fmt.Sprintf("%d keys were read outside the region of the scan node (at most the one ending the scan may be)", outside)
+		} else if outside == 1 {
+			if rp.Nexts[len(rp.Nexts)-1] != last {
+				bad = "the key read outside the region is not the last key read: " + last
+			}
+			for _, kv := range store { // the first stored key behind the region's reads
+				if len(inside) > 0 && kv[0] > inside[len(inside)-1] && !c18InRegion(scan, kv[0]) && kv[0] < last {
+					bad = "the key read outside the region (" + last + ") is not the first stored key behind it (" + kv[0] + ")"
+					break
+				}
+			}
+		}
+	}
+	idx := e.add(fmt.Sprintf("Case %s %s %s %s %d", term, obs.region, coqStrList(rp.Gets), coqStrList(inside), rp.Cursors), rp, obs.kind != "FULL")
+	if bad != "" {
+		rp.What = bad
+		e.fail(idx, "storage was read outside the pinned region: "+bad, "C18/read-outside-region", rp)
 	}
 }
 
@@ -263,6 +363,30 @@ func runC18(c *runCtx) error {
 				c18Case(e, fmt.Sprintf("%s & %s & %s", a, chain(k, ai), atoms[(ai+1)%len(atoms)]), univ, m.batch, m.B)
 			}
 		}
+	}
+	// DELETE, and regions of several batches: 40 pairs under the prefix `ab`, pairs before and behind it; what a
+	// scan-and-delete loop reads while it deletes stays inside the region, batch after batch
+	var big [][2]string
+	big = append(big, [2]string{"a", "1"}, [2]string{"ab", "2"})
+	for i := 0; i < 40; i++ {
+		big = append(big, [2]string{fmt.Sprintf("ab%02d", i), fmt.Sprint(i % 7)})
+	}
+	big = append(big, [2]string{"abz", "x"}, [2]string{"ac", "3"}, [2]string{"b", "4"}, [2]string{"b0", "5"}, [2]string{"ba", "6"}, [2]string{"c", "7"}, [2]string{"c1", "8"})
+	del := len(c18Heads) - 1
+	for pi, pred := range []string{"key ^= 'ab'", "key between 'ab' and 'abz'", "key >= 'ab' & key < 'ac'", "key ^= 'ab' & value != '3'",
+		"key > 'ab' & key <= 'ab39'", "key ^= 'ab' & key >= 'ab10'", "key in ('ab01', 'ab02', 'zz') | key ^= 'ab3'"} {
+		for mi, m := range modes {
+			c18BigCase(e, del, pred, big, m.batch, m.B)
+			if (pi+mi)%2 == 0 || c.thorough() {
+				c18BigCase(e, 0, pred, big, m.batch, m.B)
+				c18BigCase(e, 1+(pi+mi)%(len(c18Heads)-2), pred, big, m.batch, m.B)
+			}
+		}
+	}
+	for ai, a := range atoms { // DELETE over every single shape on the small universe too
+		m := modes[ai%len(modes)]
+		c18CaseH(e, del, a, univ, m.batch, m.B, false)
+		c18CaseH(e, del, fmt.Sprintf("%s & %s", a, opaque[ai%len(opaque)]), univ, m.batch, m.B, false)
 	}
 	e.m.Exhaustive = c.thorough()
 	return e.flush()
